@@ -33,6 +33,7 @@ import (
 	"strconv"
 	"strings"
 	"sync"
+	"sync/atomic"
 	"syscall"
 	"time"
 
@@ -67,6 +68,7 @@ type crashSpec struct {
 	Snap     bool // copy synced files (power-loss images)
 	Reopen   bool // the directory holds an earlier (crashed) session
 	Managed  bool // managed mode: every commit is a managed write batch of 3 entries with per-entry versions
+	CompactEvery int // every k-th commit is followed by an explicit compaction (production doCompact) of L0, every 2k-th also of L1
 }
 
 type cwrite struct {
@@ -113,6 +115,7 @@ type crashLogger struct {
 	occ  int
 	spec *crashSpec
 	voff map[uint64]uint64 // vlog fid -> write offset after the last request
+	db   atomic.Pointer[badger.DB]
 	open bool // Open returned
 }
 
@@ -184,6 +187,24 @@ func (l *crashLogger) curWal() string {
 	return best
 }
 
+// logs key@version of every entry of a table file that has just been built
+func (l *crashLogger) tableLine(id uint64) {
+	db := l.db.Load()
+	if db == nil {
+		return
+	}
+	ks, vs, err := db.VerifTableKeys(id)
+	if err != nil {
+		l.line("TABLEERR %d %v", id, err)
+		return
+	}
+	var sb strings.Builder
+	for i := range ks {
+		fmt.Fprintf(&sb, " %s@%d", ks[i], vs[i])
+	}
+	l.line("TABLE %d%s", id, sb.String())
+}
+
 func (l *crashLogger) point(name string, args ...uint64) {
 	if !strings.HasPrefix(name, "persist.") {
 		return
@@ -212,6 +233,7 @@ func (l *crashLogger) point(name string, args ...uint64) {
 		}
 	case "persist.flush.table":
 		l.snap(seq, fmt.Sprintf("%06d.sst", args[0]))
+		l.tableLine(args[0])
 	case "persist.manifest.done":
 		l.snap(seq, "MANIFEST")
 	case "persist.syncdir.done", "persist.flush.wal-released", "persist.compact.installed",
@@ -254,6 +276,7 @@ func crashChild(c *Ctx) error {
 			seq := l.line("COMPACT %d %d top=%v bot=%v new=%v", info.ThisLevel, info.NextLevel, info.Top, info.Bot, info.New)
 			for _, id := range info.New {
 				l.snap(seq, fmt.Sprintf("%06d.sst", id))
+				l.tableLine(id)
 			}
 		},
 	})
@@ -273,6 +296,7 @@ func crashChild(c *Ctx) error {
 		fmt.Printf("OPENERR %v\n", err)
 		os.Exit(3)
 	}
+	l.db.Store(db)
 	l.mu.Lock()
 	seq := l.line("OPEN-DONE")
 	l.line("LS %s", l.listing())
@@ -340,6 +364,18 @@ func crashChild(c *Ctx) error {
 			l.line("COMMITERR %d %v", i, cerr)
 		}
 		l.mu.Unlock()
+		if s.CompactEvery > 0 && i%s.CompactEvery == 0 {
+			cerr := db.VerifCompact(0, false, nil)
+			l.mu.Lock()
+			l.line("COMPACTCALL 0 %v", cerr)
+			l.mu.Unlock()
+			if i%(2*s.CompactEvery) == 0 {
+				cerr = db.VerifCompact(1, false, nil)
+				l.mu.Lock()
+				l.line("COMPACTCALL 1 %v", cerr)
+				l.mu.Unlock()
+			}
+		}
 		if s.GC && i%25 == 0 {
 			gerr := db.RunValueLogGC(0.01)
 			l.mu.Lock()
@@ -958,6 +994,24 @@ func crashBuildTrace(s *crashSpec, evs []crashEvent, upto int) *crashTrace {
 	// a creation hook fires AFTER the file was created; a directory fsync logged just before it
 	// whose listing already shows the new name happened after the creation: the SyncDir event
 	// is moved behind the creation events
+	cellByKV := map[string]cellT{} // "key@version" -> cell
+	var pendingCompacts, installed []crashCompact
+	pendingFlush := false
+	manifestIs := "" // what the change set being written is: "flush" / "compact"
+	var manifestCp crashCompact
+	// the TABLE line of table id logged by the same hook call as event i
+	tableAt := func(i int, id uint64) ([]string, bool) {
+		for j := i + 1; j < len(evs) && (evs[j].Kind == "TABLE" || evs[j].Kind == "LS" || evs[j].Kind == "TABLEERR"); j++ {
+			if evs[j].Kind != "TABLE" {
+				continue
+			}
+			fs := strings.Fields(evs[j].Rest)
+			if len(fs) > 0 && fs[0] == fmt.Sprint(id) {
+				return fs[1:], true
+			}
+		}
+		return nil, false
+	}
 	lastSyncIdx, lastSyncLS := -1, ""
 	moveSync := func(name string) bool {
 		if lastSyncIdx >= 0 && lastSyncIdx < len(t.evs) && t.evs[lastSyncIdx] == "PE SyncDir" && crashHas(lastSyncLS, name) {
@@ -980,9 +1034,41 @@ func crashBuildTrace(s *crashSpec, evs []crashEvent, upto int) *crashTrace {
 		if ev.Kind == "LS" {
 			continue
 		}
-		if ev.Kind == "COMPACT" || ev.Kind == "GC" {
-			fail("compaction / GC in the log")
+		if ev.Kind == "GC" {
+			fail("value-log GC in the log")
 			return t
+		}
+		if ev.Kind == "COMPACT" {
+			cp, ok := crashParseCompact(ev.Rest)
+			if !ok {
+				fail("unparsable COMPACT line")
+				return t
+			}
+			moved := len(cp.news) > 0 && moveSync(fmt.Sprintf("%06d.sst", cp.news[0]))
+			for _, id := range cp.news {
+				emit(fmt.Sprintf("PE (Create (Sst %d))", id))
+				emit(fmt.Sprintf("PE (Init (Sst %d))", id))
+				kvs, found := tableAt(i, id)
+				if !found {
+					fail(fmt.Sprintf("no TABLE line for compaction output %d", id))
+					return t
+				}
+				for _, kv := range kvs {
+					c, ok := cellByKV[kv]
+					if !ok {
+						fail("compaction output holds an entry no request wrote: " + kv)
+						return t
+					}
+					emit(fmt.Sprintf("PE (Append (Sst %d) (IT (%s, %s)))", id, c.ent, c.ptr))
+				}
+				emit(fmt.Sprintf("PE (SyncFile (Sst %d))", id))
+			}
+			if moved {
+				emit("PE SyncDir")
+			}
+			pendingCompacts = append(pendingCompacts, cp)
+			t.kinds["compaction"]++
+			continue
 		}
 		if ev.Kind != "H" {
 			continue
@@ -1009,6 +1095,9 @@ func crashBuildTrace(s *crashSpec, evs []crashEvent, upto int) *crashTrace {
 				} else {
 					cs = append(cs, cellT{ce, "None"})
 				}
+			}
+			for j, w := range ws {
+				cellByKV[fmt.Sprintf("%s@%d", w.Key, ci)] = cs[j]
 			}
 			if uint64(nbig) != ev.Args[2] {
 				fail(fmt.Sprintf("request %d: %d vlog records written, %d expected", r, ev.Args[2], nbig))
@@ -1086,21 +1175,77 @@ func crashBuildTrace(s *crashSpec, evs []crashEvent, upto int) *crashTrace {
 			moved := moveSync(fmt.Sprintf("%06d.sst", id))
 			emit(fmt.Sprintf("PE (Create (Sst %d))", id))
 			emit(fmt.Sprintf("PE (Init (Sst %d))", id))
-			for _, r := range walUnits[flushedUpTo+1] {
-				for _, c := range cells[r] {
+			if kvs, found := tableAt(i, id); found {
+				// what the table file really holds (VerifTableKeys at the hook)
+				for _, kv := range kvs {
+					c, ok := cellByKV[kv]
+					if !ok {
+						fail("flushed table holds an entry no request wrote: " + kv)
+						return t
+					}
 					emit(fmt.Sprintf("PE (Append (Sst %d) (IT (%s, %s)))", id, c.ent, c.ptr))
 				}
+			} else {
+				for _, r := range walUnits[nFlushBegun] {
+					for _, c := range cells[r] {
+						emit(fmt.Sprintf("PE (Append (Sst %d) (IT (%s, %s)))", id, c.ent, c.ptr))
+					}
+				}
 			}
+			pendingFlush = true
 			emit(fmt.Sprintf("PE (SyncFile (Sst %d))", id))
 			if moved {
 				emit("PE SyncDir")
 			}
 		case "persist.manifest.before-write":
+			// addChanges is serialised: the change set is the flusher's (one create: 14 bytes with
+			// the default compression) or a compactor's (at least two changes)
+			switch {
+			case pendingFlush && (len(pendingCompacts) == 0 || ev.Args[0] <= 16):
+				manifestIs = "flush"
+			case len(pendingCompacts) == 1:
+				manifestIs, manifestCp = "compact", pendingCompacts[0]
+				pendingCompacts = nil
+			default:
+				fail("cannot attribute a MANIFEST change set (concurrent compactions)")
+				return t
+			}
 		case "persist.manifest.written":
-			emit(fmt.Sprintf("PE (Append Manifest (IM [MCreate %d 0]))", lastFlushTable))
-			flushedUpTo++
+			switch manifestIs {
+			case "flush":
+				emit(fmt.Sprintf("PE (Append Manifest (IM [MCreate %d 0]))", lastFlushTable))
+				flushedUpTo++
+				pendingFlush = false
+			case "compact":
+				var chs []string
+				for _, id := range manifestCp.news {
+					chs = append(chs, fmt.Sprintf("MCreate %d %d", id, manifestCp.next))
+				}
+				for _, id := range append(append([]uint64{}, manifestCp.top...), manifestCp.bot...) {
+					chs = append(chs, fmt.Sprintf("MDelete %d", id))
+				}
+				emit("PE (Append Manifest (IM " + ListOf(chs) + "))")
+				installed = append(installed, manifestCp)
+			default:
+				fail("MANIFEST write without a pending flush or compaction")
+				return t
+			}
+			manifestIs = ""
 		case "persist.manifest.done":
 			emit("PE (SyncFile Manifest)")
+		case "persist.compact.built", "persist.compact.manifest":
+		case "persist.compact.installed":
+			// the LS line of the same hook call: input tables that are gone have been removed
+			if i+1 < len(evs) && evs[i+1].Kind == "LS" && len(installed) > 0 {
+				cp := installed[0]
+				installed = installed[1:]
+				for _, id := range append(append([]uint64{}, cp.top...), cp.bot...) {
+					if !crashHas(evs[i+1].Rest, fmt.Sprintf("%06d.sst", id)) {
+						emit(fmt.Sprintf("PE (Truncate0 (Sst %d))", id))
+						emit(fmt.Sprintf("PE (Unlink (Sst %d))", id))
+					}
+				}
+			}
 		case "persist.flush.manifest", "persist.flush.before-wal-release":
 		case "persist.flush.wal-released":
 			// the LS line logged by the same hook call tells whether the flushed WAL is gone
@@ -1224,6 +1369,9 @@ func crashWorkloads() []crashWorkload {
 		{"batch-compact", crashSpec{Batch: true, NCommits: 400, MemSize: 8 << 10, NumComp: 2, BigEvery: 5, BigSize: 200, DelEvery: 6}, false, false},
 		{"txn-sync-compact-gc", crashSpec{Sync: true, NCommits: 260, MemSize: 8 << 10, NumComp: 2, BigEvery: 2, BigSize: 5000, DelEvery: 4, GC: true}, false, false},
 		{"two-sessions", crashSpec{NCommits: 120, MemSize: 8 << 10, NumComp: 2, BigEvery: 3, BigSize: 300, DelEvery: 5}, false, true},
+		// explicit compactions through the production doCompact (no background compactors, no
+		// deletes: tombstone elision is C12's subject): eligible for the model correspondence
+		{"txn-compact", crashSpec{NCommits: 220, MemSize: 8 << 10, BigEvery: 4, BigSize: 300, CompactEvery: 45}, true, false},
 	}
 }
 
@@ -1533,7 +1681,7 @@ func crashRunKill(c *Ctx, e *crashEnv, fixDir, fixZero bool) error {
 		job{2, 0, "managed-batch", 0, ""})
 	mechs := []string{"exit-hook", "exit-hit", "sigkill", "exit-hook", "exit-hit"}
 	for k := 3; k < c.N+3; k++ {
-		jobs = append(jobs, job{k, []int{0, 1, 2, 3, 4, 0, 1}[c.Rng.Intn(7)], mechs[k%len(mechs)], c.Rng.Int63(), ""})
+		jobs = append(jobs, job{k, []int{0, 1, 2, 3, 4, 5, 0, 1, 5}[c.Rng.Intn(9)], mechs[k%len(mechs)], c.Rng.Int63(), ""})
 	}
 	results := make([]crashResult, len(jobs))
 	sem := make(chan struct{}, 5)
@@ -1722,6 +1870,7 @@ func crashRunPower(c *Ctx, e *crashEnv, fixDir, fixZero bool) error {
 		{"sync-novlog", crashSpec{Sync: true, NCommits: 140, MemSize: 8 << 10, DelEvery: 6, Snap: true}, true, false},
 		{"sync-vlog", crashSpec{Sync: true, NCommits: 140, MemSize: 8 << 10, BigEvery: 3, BigSize: 300, DelEvery: 5, Snap: true}, true, false},
 		{"sync-batch-compact", crashSpec{Sync: true, Batch: true, NCommits: 300, MemSize: 8 << 10, NumComp: 2, DelEvery: 5, Snap: true}, false, false},
+		{"sync-compact", crashSpec{Sync: true, NCommits: 220, MemSize: 8 << 10, BigEvery: 4, BigSize: 300, CompactEvery: 45, Snap: true}, true, false},
 	}
 	type runT struct {
 		s    crashSpec
@@ -2019,7 +2168,7 @@ func (e *crashEnv) managedJob(k int) crashResult {
 	}
 	for ci := 1; ci <= r.issued; ci++ {
 		if cnt[ci] != 0 && cnt[ci] != 3 {
-			r.sig = "F26-managed-batch-without-txn-markers-partially-recovered"
+			r.sig = "F28-managed-batch-without-txn-markers-partially-recovered"
 			r.what = fmt.Sprintf("managed write batch %d (3 entries with per-entry versions, one request): %d of 3 entries recovered", ci, cnt[ci])
 			return r
 		}
@@ -2029,4 +2178,46 @@ func (e *crashEnv) managedJob(k int) crashResult {
 		}
 	}
 	return r
+}
+
+
+type crashCompact struct {
+	this, next     int
+	top, bot, news []uint64
+}
+
+// "0 2 top=[1 2] bot=[] new=[7 8]"
+func crashParseCompact(rest string) (crashCompact, bool) {
+	var cp crashCompact
+	fs := strings.SplitN(rest, " ", 3)
+	if len(fs) < 3 {
+		return cp, false
+	}
+	cp.this, _ = strconv.Atoi(fs[0])
+	cp.next, _ = strconv.Atoi(fs[1])
+	list := func(tag string) ([]uint64, bool) {
+		i := strings.Index(fs[2], tag+"=[")
+		if i < 0 {
+			return nil, false
+		}
+		r := fs[2][i+len(tag)+2:]
+		j := strings.Index(r, "]")
+		if j < 0 {
+			return nil, false
+		}
+		var out []uint64
+		for _, x := range strings.Fields(r[:j]) {
+			n, err := strconv.ParseUint(x, 10, 64)
+			if err != nil {
+				return nil, false
+			}
+			out = append(out, n)
+		}
+		return out, true
+	}
+	var ok1, ok2, ok3 bool
+	cp.top, ok1 = list("top")
+	cp.bot, ok2 = list("bot")
+	cp.news, ok3 = list("new")
+	return cp, ok1 && ok2 && ok3
 }
